@@ -1,6 +1,9 @@
 #include "common.hpp"
 #include <boost/asio/error.hpp>
 #include <unistd.h>
+#include <ctime>
+#include <cstdlib>
+#include <fstream>
 
 namespace vh {
 
@@ -125,6 +128,15 @@ int for_each_behaviour(std::string const& path, std::size_t skip
 		}
 		std::fprintf(g_out, "{\"i\":%zu,\"begin\":true}\n", idx);
 		std::fflush(g_out);
+		{
+			// wall-clock limit per behaviour: a run that blocks (e.g. a handler invoked while a lock is held)
+			// ends this process; the driver reports the behaviour and resumes with the next one
+			static long const case_limit = std::getenv("VH_CASE_LIMIT") ? std::atol(std::getenv("VH_CASE_LIMIT")) : 90;
+			static std::time_t const deadline = std::getenv("VH_WALL_LIMIT") ? std::time(nullptr) + std::atol(std::getenv("VH_WALL_LIMIT")) : 0;
+			long lim = case_limit;
+			if (deadline) { long const rest = long(deadline - std::time(nullptr)); if (rest < lim) lim = rest < 1 ? 1 : rest; }
+			alarm(unsigned(lim));
+		}
 		warmup();
 		result r = fn(idx, v);
 		json::object o = r.extra;
